@@ -81,11 +81,15 @@ def _make_unfold(mod):
 def rule_L1(ctx) -> None:
     from .. import lenalg
     mod = ctx.repo.mod(M_INIT)
+    from .. import sibling
     lenalg.UNFOLD = _make_unfold(mod)
+    ld = mod.consts.get("WIRE_LEN_DELIM_TYPES")
+    sibling.LEN_DELIM_TYPES = set(ld) if isinstance(ld, (list, tuple, set, frozenset)) else None
     try:
         _rule_L1(ctx, mod)
     finally:
         lenalg.UNFOLD = None
+        sibling.LEN_DELIM_TYPES = None
 
 
 def _rule_L1(ctx, mod) -> None:
